@@ -53,3 +53,64 @@ Theorem C12_dop853_observer_independence :
       end.
 Proof. exact @Dop853Protocol.loop_passive. Qed.
 Print Assumptions C12_dop853_observer_independence.
+
+(* ---------------- RK23, RK4, Radau, BDF: passive observers by erasure ----------------
+   `erase` forgets the observer's own data in a solver state (all other fields -- abscissa, state, step size, flags,
+   factorisations, statistics, evaluation logs -- are kept), `erase_r` in a result.  For two callbacks that are passive
+   (always Continue, state returned unchanged -- what C12_handler_passive shows of the default handler without terminal
+   events) and two start states equal up to the observers' data, the runs are equal up to the observers' data: same
+   accepted steps, states, statistics, status; for every number type, kernel / right-hand side / Jacobian / mass. *)
+Require IVP.model.Rk23 IVP.model.Rk4 IVP.model.Radau IVP.model.Bdf.
+Require IVP.proofs.Rk23Passive IVP.proofs.Rk4Passive IVP.proofs.RadauPassive IVP.proofs.BdfPassive.
+
+Theorem C12_rk23_observer_independence :
+  forall (F : Type) (O : Ops F) (H1 H2 : Type) (P : Rk23.params) f xend posneg hmax kern
+         (cb1 : H1 -> F -> F -> list F -> option (list F * F * F) -> H1 * flag F * list F)
+         (cb2 : H2 -> F -> F -> list F -> option (list F * F * F) -> H2 * flag F * list F),
+    (forall h xold x y sg, exists h', cb1 h xold x y sg = (h', Continue, y)) ->
+    (forall h xold x y sg, exists h', cb2 h xold x y sg = (h', Continue, y)) ->
+    forall fuel (s1 : Rk23.state H1) (s2 : Rk23.state H2),
+      Rk23Passive.erase s1 = Rk23Passive.erase s2 ->
+      option_map Rk23Passive.erase_r (Rk23.loop O P f xend posneg hmax cb1 kern fuel s1) =
+      option_map Rk23Passive.erase_r (Rk23.loop O P f xend posneg hmax cb2 kern fuel s2).
+Proof. intros. now apply Rk23Passive.observer_independence. Qed.
+Print Assumptions C12_rk23_observer_independence.
+
+Theorem C12_rk4_observer_independence :
+  forall (F : Type) (O : Ops F) (H1 H2 : Type) (P : Rk4.params) f xend h kern
+         (cb1 : H1 -> F -> F -> list F -> option (list F * F * F) -> H1 * flag F * list F)
+         (cb2 : H2 -> F -> F -> list F -> option (list F * F * F) -> H2 * flag F * list F),
+    (forall h xold x y sg, exists h', cb1 h xold x y sg = (h', Continue, y)) ->
+    (forall h xold x y sg, exists h', cb2 h xold x y sg = (h', Continue, y)) ->
+    forall fuel (s1 : Rk4.state H1) (s2 : Rk4.state H2),
+      Rk4Passive.erase s1 = Rk4Passive.erase s2 ->
+      option_map Rk4Passive.erase_r (Rk4.loop O P f xend h cb1 kern fuel s1) =
+      option_map Rk4Passive.erase_r (Rk4.loop O P f xend h cb2 kern fuel s2).
+Proof. intros. now apply Rk4Passive.observer_independence. Qed.
+Print Assumptions C12_rk4_observer_independence.
+
+Theorem C12_radau_observer_independence :
+  forall (F : Type) (O : Ops F) (H1 H2 : Type) (P : Radau.params) n f jacf mass atolv rtolv newton_tol xend posneg hmax hmin
+         (cb1 : H1 -> F -> F -> list F -> option (list F * F * F) -> H1 * flag F * list F)
+         (cb2 : H2 -> F -> F -> list F -> option (list F * F * F) -> H2 * flag F * list F),
+    (forall h xold x y sg, exists h', cb1 h xold x y sg = (h', Continue, y)) ->
+    (forall h xold x y sg, exists h', cb2 h xold x y sg = (h', Continue, y)) ->
+    forall fuel (s1 : Radau.state H1) (s2 : Radau.state H2),
+      RadauPassive.erase s1 = RadauPassive.erase s2 ->
+      option_map RadauPassive.erase_r (Radau.loop O P n f jacf mass atolv rtolv newton_tol xend posneg hmax hmin cb1 fuel s1) =
+      option_map RadauPassive.erase_r (Radau.loop O P n f jacf mass atolv rtolv newton_tol xend posneg hmax hmin cb2 fuel s2).
+Proof. intros. now apply RadauPassive.observer_independence. Qed.
+Print Assumptions C12_radau_observer_independence.
+
+Theorem C12_bdf_observer_independence :
+  forall (F : Type) (O : Ops F) (H1 H2 : Type) (P : Bdf.params) n f jacf atolv rtolv newton_tol maxiter xend direction hmax hmin
+         (cb1 : H1 -> F -> F -> list F -> option (list F * F * F) -> H1 * flag F * list F)
+         (cb2 : H2 -> F -> F -> list F -> option (list F * F * F) -> H2 * flag F * list F),
+    (forall h xold x y sg, exists h', cb1 h xold x y sg = (h', Continue, y)) ->
+    (forall h xold x y sg, exists h', cb2 h xold x y sg = (h', Continue, y)) ->
+    forall fuel (s1 : Bdf.state H1) (s2 : Bdf.state H2),
+      BdfPassive.erase s1 = BdfPassive.erase s2 ->
+      option_map BdfPassive.erase_r (Bdf.loop O P n f jacf atolv rtolv newton_tol maxiter xend direction hmax hmin cb1 fuel s1) =
+      option_map BdfPassive.erase_r (Bdf.loop O P n f jacf atolv rtolv newton_tol maxiter xend direction hmax hmin cb2 fuel s2).
+Proof. intros. now apply BdfPassive.observer_independence. Qed.
+Print Assumptions C12_bdf_observer_independence.
